@@ -40,6 +40,9 @@ enum Bad {
     ProofBit(u16, u8),
     WrongPi,
     WrongVk,
+    /// the final opening witness (last G1 element of the proof) shifted by s * G: invalid alone,
+    /// but the errors of a +s and a -s twin cancel under equal batching coefficients
+    Twin(i8),
 }
 
 #[derive(Clone, Debug, Serialize, Deserialize)]
@@ -108,6 +111,17 @@ fn build(m: &Member, poseidon: bool) -> Built {
         }
         Bad::WrongPi => pi[0] += F::from(1),
         Bad::WrongVk => vk_fix = ALL_FIX[(ALL_FIX.iter().position(|f| *f == m.fix).unwrap() + 1) % ALL_FIX.len()],
+        Bad::Twin(s) => {
+            use group::{Curve, Group, GroupEncoding};
+            use midnight_curves::{G1Affine, G1Projective};
+            let at = proof.len() - 48;
+            let mut repr = <G1Affine as GroupEncoding>::Repr::default();
+            repr.as_mut().copy_from_slice(&proof[at..]);
+            let pi: G1Affine = Option::from(G1Affine::from_bytes(&repr)).expect("the proof ends with a compressed G1 point");
+            let shift = G1Projective::generator() * F::from(s.unsigned_abs() as u64);
+            let shifted = if s >= 0 { G1Projective::from(pi) + shift } else { G1Projective::from(pi) - shift };
+            proof[at..].copy_from_slice(shifted.to_affine().to_bytes().as_ref());
+        }
     }
     Built { vk_fix, pi, proof }
 }
@@ -252,6 +266,29 @@ fn guards(c: &Case) -> CaseResult {
     Ok(Verdict::of(n >= 2 && n_bad == 1 || n >= 3, format!("guards{}-bad{}", n, n_bad.min(2))))
 }
 
+/// Batches whose invalid members have errors that sum to zero: two or three "twins" of honest
+/// proofs of one relation placed in every pair / triple of slots among valid members.
+fn cancelling_strategy() -> BoxedStrategy<Case> {
+    (2usize..=6, any::<u64>(), 0usize..3, 0..POOL, prop_oneof![3 => Just(vec![1i8, -1]), 1 => Just(vec![2i8, -2]), 1 => Just(vec![1i8, 1, -2]), 1 => Just(vec![-3i8, 1, 2])], any::<bool>(), proptest::bool::weighted(0.2))
+        .prop_map(|(n, place, f, which, shifts, same_proof, poseidon)| {
+            let n = n.max(shifts.len());
+            // slots of the twins: a pseudo-random subset of the n slots, in pseudo-random order
+            let mut slots: Vec<usize> = (0..n).collect();
+            let mut st = place | 1;
+            for i in (1..n).rev() {
+                st = st.wrapping_mul(6364136223846793005).wrapping_add(1442695040888963407);
+                slots.swap(i, (st >> 33) as usize % (i + 1));
+            }
+            let mut members: Vec<Member> = (0..n).map(|i| Member { fix: ALL_FIX[(f + i) % 3], which: (which + i as u64) % POOL, bad: Bad::None }).collect();
+            for (j, s) in shifts.iter().enumerate() {
+                // twins of the same honest proof, or of different proofs of the same relation
+                members[slots[j]] = Member { fix: ALL_FIX[f], which: if same_proof { which } else { (which + j as u64) % POOL }, bad: Bad::Twin(*s) };
+            }
+            Case { members, poseidon }
+        })
+        .boxed()
+}
+
 fn main() {
     vpcore::main("C15", "exploration", (1800, 10800), |p| {
         p.assume("all fixture keys use one SRS secret (batches share verifier parameters); invalid members are single corruptions of honest proofs/inputs/keys");
@@ -273,5 +310,8 @@ fn main() {
             strategy,
             guards,
         );
+        let rule = "batches of 2..6 members in which two or three members are twins of honest proofs whose final opening witness is shifted by s*G with the shifts summing to zero (+1,-1 / +2,-2 / +1,+1,-2 / -3,+1,+2), in every choice of slots, the other members valid: each twin is refused on its own and the batch must be refused; every case non-trivial";
+        p.sub_cfg("batch_verify.cancelling", rule, p.tier.pick(300, 5000), 8, 32, cancelling_strategy, |c| batch(c).map(|mut v| { v.nontrivial = true; v.with("twins") }));
+        p.sub_cfg("guards.cancelling", rule, p.tier.pick(200, 3000), 8, 32, cancelling_strategy, |c| guards(c).map(|mut v| { v.nontrivial = true; v.with("twins") }));
     });
 }
